@@ -651,6 +651,15 @@ def corpus():
                                   'update': {'store_A': {'var_a': 4}}}]}}, ps=('MV',), ops=['move']),
         _u({'store3': {'_move': [{'source': 'a1', 'target': ('2', 'a3')}]}}, ps=('MV',), ops=['move']),
     ], steps=steps, flow=flow))
+    # F58: a two-segment source arriving where a node of that name exists: its value is applied to that node (the
+    # collision branch), as for a one-segment source
+    nest2 = PD('MV2', False, {'here': {'*': {'*': {'mass': {'_default': 0}}}}, 'there': {'*': {'*': {'mass': {'_default': 0}}}}})
+    out.append(_case({'MV2': nest2}, {'MV2': {'here': ('here',), 'there': ('there',)}},
+                     {'here': {'a': {'x': {'mass': 3}, 'y': {'mass': 4}}}, 'there': {'a': {'x': {'mass': 10}}}}, [
+        _u({'here': {'_move': [{'source': ('a', 'x'), 'target': 'there'}]}}, ps=('MV2',), ops=['move'])]))
+    out.append(_case({'MV2': nest2}, {'MV2': {'here': ('here',), 'there': ('there',)}},
+                     {'here': {'a': {'x': {'mass': 3}}}, 'there': {'a': {'x': {'mass': 10}}}}, [
+        _u({'here': {'_move': [{'source': 'a', 'target': 'there'}]}}, ps=('MV2',), ops=['move'])]))
     # division: daughters copy the mother's processes and topology; then divide a daughter again
     cellp = PD('CP', False, {'g': {'v': {'_default': 4, '_divider': 'zero'}, 'w': {'_default': 2}},
                              'out': {'*': {}}})
